@@ -12,6 +12,7 @@ Anything outside the supported fragment raises Unsupported (fail-closed): the ca
 The translator never looks at line numbers, comments or docstrings.
 """
 import ast
+from . import srcnorm as _srcnorm
 from fractions import Fraction
 
 
@@ -346,7 +347,7 @@ def pr_batch(ir, lets, lane_binder, ind='  '):
 
 
 def find_method(path, cls, meth):
-    mod = ast.parse(open(path).read())
+    mod = _srcnorm.parse_file(path)
     for n in mod.body:
         if isinstance(n, ast.ClassDef) and n.name == cls:
             for m in n.body:
@@ -356,7 +357,7 @@ def find_method(path, cls, meth):
 
 
 def find_function(path, name):
-    mod = ast.parse(open(path).read())
+    mod = _srcnorm.parse_file(path)
     for n in mod.body:
         if isinstance(n, ast.FunctionDef) and n.name == name:
             return mod, n
@@ -402,7 +403,7 @@ def translate_kernel(path, cls, meth, class_methods, consts=None, with_tau=False
 
 
 def class_attr(path, cls, attr):
-    mod = ast.parse(open(path).read())
+    mod = _srcnorm.parse_file(path)
     for n in mod.body:
         if isinstance(n, ast.ClassDef) and n.name == cls:
             for m in n.body:
